@@ -31,7 +31,9 @@ impl<'tcx> HirX<'tcx> {
         let mut found = None;
         for ed in sp.macro_backtrace() {
             if let ExpnKind::Macro(_, name) = ed.kind {
-                let n = name.as_str();
+                // `log::trace!` is reported with its path: compare the last segment
+                let full = name.as_str();
+                let n = full.rsplit("::").next().unwrap_or(full);
                 if KNOWN_MACROS.contains(&n) {
                     found = Some(n.to_string());
                 }
